@@ -34,7 +34,8 @@ LEVEL_TEXT = ("The abstract state space (3 paths x {absent, 3 contents}) x 3 exc
               "cover, and the viewers must refuse other-version caches. Real multi-scan histories on one directory validate the abstraction.")
 LEVEL_NOTE = ("Abstraction argument: scan reads only the tree, the two exclusion sources and, from the cache, version and files[*].{checksum, language, "
               "loc, measurements}; uuid/timestamp/root/totals/tree are written but never consumed (validated by part B: same successor from real "
-              "histories). 'Altered entries' = alterations the stated reuse rule can see (checksum, version, missing/extra path).")
+              "histories). 'Altered entries' = alterations the stated reuse rule can see (checksum, version, missing/extra path)."
+              " Near edits (changes a sloppy digest cannot see) and sibling scenarios (creating / deleting / renaming a neighbour of an unchanged file) run as real scan histories.")
 
 CONTENTS = {
     "c1": {"py": harness.py_function("short_fn", 4), "js": harness.js_function("shortFn", 4)},
